@@ -453,6 +453,14 @@ OWNERS = {
     'C08.enc-livelock': ['C08'],
     'C07.enc-insufficient': ['C07'],
     'C18.enc-fill-dependent': ['C18'],
+    'C18.mem-fill-dependent': ['C18', 'C15'],
+    'C03.sweep-entry': ['C03', 'C12', 'C20'],
+    'C03.sweep-missing': ['C03', 'C12', 'C20'],
+    'C03.sweep-odd': ['C03', 'C12'],
+    'C05.mem-str-invalid': ['C05'],
+    'C06.mem-guard': ['C06'],
+    'C14.result': ['C14', 'C17'],
+    'C11.enc-encoding-used': ['C11', 'C20'],
 }
 
 
